@@ -120,7 +120,9 @@ The semantic theorems of Conc/MacroModel.lean are about `enterModel` / `leaveMod
 obligation says the current macros ARE these trees, the following ones transfer the theorems to the
 extracted trees and give cheap syntactic certificates that say WHAT changed when it fails. -/
 
-/-- the expanded macros of the current source are the modelled trees (a renamed local passes; an
+/-- the expanded macros of the current source, in the extractor's NORMAL FORM (`for` = init + `while`,
+    `T x = e` = `T x; x = e`, sequences flattened, locals numbered), are the modelled trees (a renamed
+    local or the polling loop rewritten as an equivalent `while` passes; an
     owner fast path, a second trylock, a timedlock, an assignment of the unlock result do not) -/
 theorem macro_tree_as_modelled : Generated.enterTree = enterModel ∧ Generated.leaveTree = leaveModel := by
   decide +kernel
